@@ -96,6 +96,13 @@ fn run_program(prog: &str) -> Vec<String> {
                     let resp = Response::new(code).with_body(vec![b'x'; blen]);
                     match kind.as_str() {
                         "o" => Ok(resp),
+                        "g" => Ok(Response::get_body_and_reprocess(1000)),
+                        "h" => {
+                            let mut e = Error::client_error(Response::get_body_and_reprocess(1000));
+                            for t in parse_tags(&etags).into_vec() { e.tags.push(t); }
+                            if !emsg.is_empty() { e = e.with_msg(emsg); }
+                            Err(e)
+                        }
                         "e" => {
                             let mut e = Error::client_error(resp);
                             for t in parse_tags(&etags).into_vec() { e.tags.push(t); }
@@ -125,6 +132,10 @@ pub fn case(ctx: &mut Ctx, phases: &str) {
         let mut out = Vec::new();
         for phase in ph.split('|') {
             let (logger, progs) = phase.split_once('@').unwrap();
+            if logger == "R" {
+                out.push(format!("{}#", install_race(progs.parse().unwrap())));
+                continue;
+            }
             let progs: Vec<String> = progs.split('/').map(|s| s.to_string()).collect();
             // S: a live logger whose queue holds 2 events and whose consumer starts late (callers must wait, not lose events)
             // X: as S with a queue of one, and the guard is dropped while a thread is still blocked inside a logging call
@@ -166,6 +177,34 @@ pub fn case(ctx: &mut Ctx, phases: &str) {
     ctx.emit("c18", &[phases], &obs);
 }
 
+/// `rounds` times: no logger is set; one thread makes a logging call (which starts the stdout default) while another
+/// installs a logger, with a swept offset between the two.  An installed logger must then receive the next event,
+/// and dropping its guard must not panic.
+fn install_race(rounds: u64) -> String {
+    let (mut lost, mut panics, mut refused) = (0u64, 0u64, 0u64);
+    for round in 0..rounds {
+        let (tx, rx) = sync_channel::<LogEvent>(1000);
+        let barrier = std::sync::Arc::new(std::sync::Barrier::new(2));
+        let (b1, b2) = (barrier.clone(), barrier);
+        let spin = |n: u64| { let t = std::time::Instant::now(); while (t.elapsed().as_nanos() as u64) < n * 2_000 { std::hint::spin_loop(); } };
+        let a = std::thread::spawn(move || { b1.wait(); spin(round % 7); let _ = servlin::log::info("race", TagList::new()); });
+        let b = std::thread::spawn(move || { b2.wait(); spin((round / 7) % 40); set_global_logger(tx) });
+        let _ = a.join();
+        match b.join().unwrap() {
+            Err(_) => refused += 1,
+            Ok(guard) => {
+                let _ = servlin::log::info("probe", TagList::new());
+                let got = rx.try_iter().any(|e| { let mut v = Vec::new(); e.write_jsonl(&mut v).is_ok() && String::from_utf8_lossy(&v).contains("\"probe\"") });
+                if !got { lost += 1; }
+                if std::panic::catch_unwind(std::panic::AssertUnwindSafe(move || drop(guard))).is_err() { panics += 1; }
+            }
+        }
+        // whatever happened, leave the state clean for the next round
+        if servlin::log::internal::lock_global_logger().is_some() { *servlin::log::internal::lock_global_logger() = servlin::log::internal::GlobalLoggerState::None; }
+    }
+    format!("lost={lost},panics={panics},refused={refused}")
+}
+
 fn h(s: &str) -> String { hex(s.as_bytes()) }
 
 pub fn run(ctx: &mut Ctx) {
@@ -191,10 +230,10 @@ pub fn run(ctx: &mut Ctx) {
                         0 | 1 => format!("a{}={}", h(*rng.pick(&names)), h(&format!("v{t}{k}"))),
                         2 => "c".to_string(),
                         3 | 4 => {
-                            let kind = *rng.pick(&["o", "e", "n"]);
-                            let code = *rng.pick(&[200u16, 201, 404, 500, 503]);
+                            let kind = *rng.pick(&["o", "e", "n", "o", "e", "n", "g", "h"]);
+                            let code = if kind == "g" || kind == "h" { 0 } else { *rng.pick(&[200u16, 201, 404, 500, 503]) };
                             let etags: Vec<String> = (0..rng.below(3)).map(|j| format!("{}={}", h(*rng.pick(&names)), h(&format!("e{j}")))).collect();
-                            format!("w{kind}:{}:{}:{}:{code}:{}:{}:{}", *rng.pick(&["GET", "POST"]), h(&format!("/t{t}/{k}")), if rng.chance(1, 3) { "P".to_string() } else { h("body") }, rng.below(4), etags.join("+"), if rng.chance(1, 2) { h("oops") } else { String::new() })
+                            format!("w{kind}:{}:{}:{}:{code}:{}:{}:{}", *rng.pick(&["GET", "POST"]), h(&format!("/t{t}/{k}")), if rng.chance(1, 3) { "P".to_string() } else { h("body") }, if code == 0 { 0 } else { rng.below(4) }, etags.join("+"), if rng.chance(1, 2) { h("oops") } else { String::new() })
                         }
                         _ => {
                             let ntags = if rng.chance(1, 8) { rng.range(15, 45) } else { rng.below(7) };
@@ -215,4 +254,8 @@ pub fn run(ctx: &mut Ctx) {
             case(ctx, &phases.join("|"));
         }
     }
+    // the install race, alone and after ordinary phases
+    let rounds = if ctx.thorough() { 1200 } else { 280 };
+    if ctx.mine(n) { case(ctx, &format!("R@{rounds}")); }
+    if ctx.mine(n + 1) { case(ctx, &format!("A@l{}:{}:|R@{}|A@l{}:{}:", "i", h("t0-0"), rounds / 2, "i", h("t0-1"))); }
 }
